@@ -7,7 +7,7 @@ ASSUMPTIONS = ["that decl() yields the same text for every argument is a run-tim
 
 
 def run(ctx):
-    out = [T.generics_rule(ctx.syn, "C07"), T.decl_rule(ctx.syn, "C07"), T.generated_state_rule(ctx.syn, "C07", "C07.R4"), F.intersection_operand_rule(ctx.mir("default")["ts_rs_macros"], "C07", "C07.R6"), T.passthrough_fields_rule(ctx.syn, "C07"), T.operand_scanner_rule(ctx.syn, "C07", rule="C07.R8")]
+    out = [T.generics_rule(ctx.syn, "C07", crate=ctx.mir("default")["ts_rs_macros"]), T.decl_rule(ctx.syn, "C07", crate=ctx.mir("default")["ts_rs_macros"]), T.generated_state_rule(ctx.syn, "C07", "C07.R4"), F.intersection_operand_rule(ctx.mir("default")["ts_rs_macros"], "C07", "C07.R6"), T.passthrough_fields_rule(ctx.syn, "C07"), T.operand_scanner_rule(ctx.syn, "C07", rule="C07.R8")]
     for fs in ctx.featuresets():
         r = MM.import_shape_rule(ctx.mir(fs)["ts_rs"], "C07", rule="C07.R3")
         if fs == "default":
